@@ -5,6 +5,10 @@ sys.path.insert(0, os.path.dirname(os.path.abspath(__file__)))
 import common
 
 
+# properties whose thorough tier is cheap enough (a few minutes) to serve as the search stage of the quick tier
+SEARCH_BY_THOROUGH = {'C02', 'C03', 'C04', 'C05', 'C06', 'C13'}
+
+
 def main():
     ap = argparse.ArgumentParser()
     ap.add_argument('prop')
@@ -15,8 +19,26 @@ def main():
     prop = a.prop.upper()
     mod = importlib.import_module(f'props.{prop.lower()}')
     res = common.Result(prop, a.tier, seed)
+    escalate = a.tier == 'quick' and not a.replay and prop in SEARCH_BY_THOROUGH
+    res.quiet = escalate
     try:
         rc = mod.run(res, a)
+        if escalate and res.violations and all(v[2] for v in res.violations):
+            # DESIGN 6.1: a proof obligation or the correspondence broke but no sampled input violates the
+            # property: search with the thorough tier's generators (same seed) for a concrete failing input
+            common.log('no failing input in the quick sample: searching with the thorough generators')
+            res2 = common.Result(prop, 'thorough', seed)
+            res2.quiet = True
+            res2.report_tier = 'quick'
+            res2.coverage['search'] = 'quick sample showed a broken proof / correspondence without a failing input; this run is the search stage (thorough generators)'
+            a.tier = 'thorough'
+            rc2 = mod.run(res2, a)
+            if any(not v[2] for v in res2.violations):
+                res, rc = res2, rc2
+            # (nothing found: the quick verdict stands; the evidence file is the search run's)
+        if res.quiet:
+            for ln in res.lines:
+                print(ln, flush=True)
     except common.BuildError as e:
         # /repo's current tree (or a harness against it) does not build: not a verdict about the property
         print(f'[check] build error: {e}', file=sys.stderr)
